@@ -763,6 +763,14 @@ Proof.
         rewrite skipn_plus. exact R.
 Qed.
 
+(** [n_groups = 0] gives [n = 0], which is also what Coq's total division returns *)
+Lemma cover_n_div {A : Type} eqb ltb (dflt : A) col size d :
+  cover_n eqb ltb dflt col size d = size / len (np_unique eqb ltb (column dflt col d)).
+Proof.
+  unfold cover_n. destruct (np_unique eqb ltb (column dflt col d)); [|reflexivity].
+  simpl. now rewrite Zdiv_0_r.
+Qed.
+
 Lemma cover_oracle_ok_spec {A : Type} eqb ltb (dflt : A) col size idxs d :
   cover_oracle_ok eqb ltb dflt col size idxs d = true ->
   let classes := np_unique eqb ltb (column dflt col d) in
@@ -776,11 +784,10 @@ Proof.
   unfold cover_oracle_ok. intro H. apply andb_true_iff in H as [H0 H].
   apply chunks_ok_spec in H as [L R]. cbv zeta.
   assert (0 <= cover_n eqb ltb dflt col size d) by lia.
-  repeat split; auto.
+  split; [auto|]. split; [apply cover_n_div|]. split.
   - unfold len. rewrite L. lia.
-  - destruct (R k c H1) as [R1 _]. unfold len. rewrite R1. lia.
-  - apply (R k c H1).
-  - apply (R k c H1).
+  - intros k c Hc. destruct (R k c Hc) as [R1 [R2 R3]]. repeat split; auto.
+    unfold len. rewrite R1. lia.
 Qed.
 
 (** * arithmetic injectors *)
